@@ -210,9 +210,10 @@ def run_falsifier(ctx, check_types):
             job.pop("renderFirst", None)
         if i >= len(focus) and i % 12 == 9:
             # the literal limit left at its default through the API: 10..15 distinct short strings are `str`, fewer a Literal
-            k = rng.choice([9, 10, 12, 15])
+            k = rng.choice([9, 10, 12, 15, 15, 14, 16])
             inputs = [("Root", [{"month": "m%02d" % j, "size": "s%d" % (j % 3), "n": j} for j in range(k)])]
-            job.update({"fw": rng.choice(["pydantic", "sqlmodel", "dataclasses", "base"]), "maxLit": 10, "omitDefaults": True})
+            lim = rng.choice([10, 10, 16, 20, 100])
+            job.update({"fw": rng.choice(["pydantic", "sqlmodel", "dataclasses", "base"]), "maxLit": lim, "omitDefaults": lim == 10})
         if i >= len(focus) and i % 12 == 6:
             # keys that only sanitise to the primary-key names sqlmodel keeps as they are: the original key must stay attached
             k1, k2 = rng.choice(["PK", "Pk", "pk.", "p-k", "pK"]), rng.choice(["ID", "Id", "id-", "i.d", "iD"])
